@@ -42,6 +42,16 @@ type MutOp struct {
 	S    string `json:"s,omitempty"`
 }
 
+// Edit replaces the value of one attribute part (index into the part list) before signing.
+type Edit struct {
+	I int    `json:"i"`
+	V string `json:"v"`
+}
+
+// editValues are schema-valid or plausible alternative attribute values.
+var editValues = []string{"", "urn:oasis:names:tc:SAML:2.0:cm:sender-vouches", "urn:oasis:names:tc:SAML:2.0:cm:holder-of-key", "urn:oasis:names:tc:SAML:2.0:cm:bearer",
+	"1.1", "2.0", "x", "not-a-time", "2030-01-01T00:00:00Z", "0001-01-01T00:00:00Z", "-1", "0", "99999999999999999999", "true", "urn:oasis:names:tc:SAML:2.0:status:Responder", "urn:oasis:names:tc:SAML:1.1:nameid-format:emailAddress"}
+
 // Case is a tagged union over the input classes of C09.
 type Case struct {
 	Kind string `json:"kind"` // resign | encplain | bytes | fixture | artifact | idp | metadata
@@ -52,6 +62,7 @@ type Case struct {
 	Entry       string `json:"entry,omitempty"` // xml | post | artifact
 	Removals    []int  `json:"removals,omitempty"`
 	ArtRemovals []int  `json:"art_removals,omitempty"`
+	Edits       []Edit `json:"edits,omitempty"` // attribute values replaced (before signing) by schema-valid alternatives
 
 	// encplain: arbitrary plaintext inside a well-formed EncryptedAssertion addressed to the SP
 	Plain     string `json:"plain,omitempty"`
@@ -165,7 +176,26 @@ var _ logger.Interface = discard{}
 
 func checkResign(c Case) pbt.Result {
 	resp := maximalResponse()
+	var edited []string
+	if len(c.Edits) > 0 {
+		ps := partsOf(resp)
+		var attrs []part
+		for _, p := range ps {
+			if p.attr != "" && !strings.HasPrefix(p.attr, "xmlns") {
+				attrs = append(attrs, p)
+			}
+		}
+		for _, e := range c.Edits {
+			if len(attrs) == 0 {
+				break
+			}
+			p := attrs[((e.I%len(attrs))+len(attrs))%len(attrs)]
+			p.el.CreateAttr(p.attr, e.V)
+			edited = append(edited, fmt.Sprintf("%s=%q", p.String(), e.V))
+		}
+	}
 	removed := removeParts(resp, c.Removals)
+	removed = append(removed, edited...)
 	doc, artRemoved, ok := signAndWrap(resp, c.Layout, c.Encrypt, c.Entry == "artifact", c.ArtRemovals)
 	if !ok {
 		return pbt.Result{Skip: true}
@@ -276,7 +306,7 @@ func feed(api string, payload []byte, framing string) callResult {
 		})
 	case "authn-get", "authn-post":
 		return guarded(func() (string, error) {
-			idp := newIDP(nil, true)
+			idp := newIDP(registeredMD(), true)
 			var req *http.Request
 			if api == "authn-get" {
 				q := url.Values{"SAMLRequest": {string(payload)}, "RelayState": {"rs"}}
@@ -343,6 +373,15 @@ func feed(api string, payload []byte, framing string) callResult {
 	}
 	_ = b64
 	return callResult{note: "harness: unknown api " + api}
+}
+
+// registeredMD is the maximal SP metadata as the IdP's registry would hold it.
+func registeredMD() *saml.EntityDescriptor {
+	var e saml.EntityDescriptor
+	if err := xml.Unmarshal(forge.Bytes(maximalSPMetadata(spkit.SPEntity, spkit.SPACS)), &e); err != nil {
+		return nil
+	}
+	return &e
 }
 
 func newServer() (*samlidp.Server, error) {
@@ -497,6 +536,8 @@ func frame(c Case) (payload []byte, inflated int, ok bool) {
 			d = d[:len(d)/2]
 		}
 		return []byte(base64.StdEncoding.EncodeToString(d)), len(c.Data), true
+	case "valid-bomb":
+		return nil, 0, true // built in checkBytes (needs the API)
 	case "bomb":
 		n := c.BombMiB << 20
 		if n <= 0 || n > 64<<20 {
@@ -510,8 +551,38 @@ func frame(c Case) (payload []byte, inflated int, ok bool) {
 	return nil, 0, false
 }
 
+// validBomb builds a message that would be perfectly VALID for the API - a trusted-signed,
+// fresh LogoutResponse or a valid AuthnRequest - carrying a comment that inflates it to
+// mib MiB: comments are outside the canonical form, so only the inflate limit stands
+// between this input and acceptance.
+func validBomb(api string, mib int) ([]byte, int, bool) {
+	pad := strings.Repeat("A", mib<<20)
+	var el *etree.Element
+	switch api {
+	case "logout-redirect", "logout-request":
+		// validateLogoutResponse reads the real clock
+		l := forge.LogoutSpec{ID: "id-lo", InResponseTo: forge.S("id-lr"), IssueInstant: forge.T(time.Now().UTC()), Destination: forge.S(spkit.SPSLO),
+			Issuer: forge.S(spkit.IDPEntity), Status: []string{forge.StatusOK}, Sign: &forge.SignSpec{Key: "idp"}}
+		var err error
+		el, err = forge.BuildLogout(&l)
+		if err != nil {
+			return nil, 0, false
+		}
+	case "authn-get":
+		el = maximalAuthnRequest(spkit.IDPSSO, spkit.SPEntity, spkit.SPACS)
+	default:
+		return nil, 0, false
+	}
+	el.CreateComment(pad)
+	raw := forge.Bytes(el)
+	return []byte(base64.StdEncoding.EncodeToString(deflate(raw, 9))), len(raw), true
+}
+
 func checkBytes(c Case) pbt.Result {
 	payload, inflated, ok := frame(c)
+	if ok && c.Framing == "valid-bomb" {
+		payload, inflated, ok = validBomb(c.API, c.BombMiB)
+	}
 	if !ok {
 		return pbt.Result{Skip: true}
 	}
@@ -528,7 +599,14 @@ func checkBytes(c Case) pbt.Result {
 		res.Err = fmt.Sprintf("%s(%s framing): %s", c.API, c.Framing, r.note)
 		return res
 	}
-	if c.Framing == "bomb" && usesDeflate && inflated > 10<<20+1<<16 && r.err == nil {
+	if c.Framing == "valid-bomb" {
+		res.Classes = append(res.Classes, fmt.Sprintf("valid-bomb:%dMiB", c.BombMiB))
+		if c.BombMiB <= 8 && r.err != nil {
+			res.Err = fmt.Sprintf("harness sanity: %s refused an otherwise valid message inflating to %d bytes (below the 10 MiB limit): %v", c.API, inflated, privateOf(r.err))
+			return res
+		}
+	}
+	if (c.Framing == "bomb" || c.Framing == "valid-bomb") && usesDeflate && inflated > 10<<20+1<<16 && r.err == nil {
 		res.Err = fmt.Sprintf("%s accepted a deflated input inflating to %d bytes (> 10 MiB)", c.API, inflated)
 		return res
 	}
@@ -976,6 +1054,10 @@ func gen(t *rapid.T) Case {
 			layouts = append(layouts, "artifact", "artifact")
 		}
 		c := Case{Kind: "resign", Layout: rapid.SampledFrom(layouts).Draw(t, "layout"), Encrypt: rapid.IntRange(0, 3).Draw(t, "enc") == 0, Entry: entry, Removals: genRemovals(t, "rm", nParts.resp)}
+		ne := rapid.SampledFrom([]int{0, 0, 1, 1, 2}).Draw(t, "nedits")
+		for i := 0; i < ne; i++ {
+			c.Edits = append(c.Edits, Edit{I: rapid.IntRange(0, 200).Draw(t, "editi"), V: rapid.SampledFrom(editValues).Draw(t, "editv")})
+		}
 		if entry == "artifact" {
 			c.ArtRemovals = genRemovals(t, "artrm", 12)
 		}
@@ -993,6 +1075,11 @@ func gen(t *rapid.T) Case {
 			c.Framing = "bomb"
 			c.Data = nil
 			c.BombMiB = rapid.SampledFrom([]int{1, 9, 10, 11, 16, 64}).Draw(t, "mib")
+			if rapid.Bool().Draw(t, "validbomb") {
+				c.Framing = "valid-bomb"
+				c.API = rapid.SampledFrom([]string{"logout-redirect", "logout-request", "authn-get"}).Draw(t, "bombapi")
+				c.BombMiB = rapid.SampledFrom([]int{1, 8, 11, 12, 24}).Draw(t, "vmib")
+			}
 		}
 		return c
 	case 8, 9:
@@ -1049,6 +1136,31 @@ func enumRemovals(tier string, emit func(Case)) {
 			emit(Case{Kind: "resign", Layout: layout, Entry: "artifact", ArtRemovals: []int{i}})
 		}
 	}
+	// every attribute x every alternative value, alone; and each such edit combined with every single removal (thorough)
+	nattr := 0
+	for _, p := range partsOf(maximalResponse()) {
+		if p.attr != "" && !strings.HasPrefix(p.attr, "xmlns") {
+			nattr++
+		}
+	}
+	for a := 0; a < nattr; a++ {
+		for _, v := range editValues {
+			emit(Case{Kind: "resign", Layout: "resp", Entry: "xml", Edits: []Edit{{I: a, V: v}}})
+			emit(Case{Kind: "resign", Layout: "assert", Entry: "xml", Edits: []Edit{{I: a, V: v}}})
+		}
+	}
+	k := 0
+	for a := 0; a < nattr; a++ {
+		for vi, v := range editValues[:4] {
+			for i := 0; i < n; i++ {
+				k++
+				if tier != "thorough" && k%3 != vi%3 {
+					continue
+				}
+				emit(Case{Kind: "resign", Layout: "resp", Entry: "xml", Removals: []int{i}, Edits: []Edit{{I: a, V: v}}})
+			}
+		}
+	}
 }
 
 func enumIDP(tier string, emit func(Case)) {
@@ -1103,6 +1215,9 @@ func enumDegenerate(_ string, emit func(Case)) {
 	for _, api := range []string{"logout-redirect", "logout-request", "authn-get"} {
 		for _, mib := range []int{1, 9, 10, 11, 16, 64} {
 			emit(Case{Kind: "bytes", API: api, Framing: "bomb", BombMiB: mib})
+		}
+		for _, mib := range []int{1, 8, 11, 12, 24} {
+			emit(Case{Kind: "bytes", API: api, Framing: "valid-bomb", BombMiB: mib})
 		}
 	}
 	for _, name := range fixtureNames {
